@@ -39,8 +39,12 @@ func history(r *ev.Run, lc *ev.Local, kind string, start ref.Pos, startpos bool,
 	counts := map[string]int{}
 	placements := map[string]int{}
 	cur := start
-	counts[cur.Key()] = 1
-	placements[placementOf(cur.Key())] = 1
+	// position identity is by e.p. CAPTURABILITY: a raw but non-capturable target in the start
+	// FEN does not make the start position a different position
+	sn := start.Normalised()
+	startKey := sn.Key()
+	counts[startKey] = 1
+	placements[placementOf(startKey)] = 1
 	finalCount = 1
 	for k, name := range moves {
 		var m ref.Move
@@ -170,7 +174,15 @@ func TestCheck(t *testing.T) {
 		rng := r.RNG("c10", i)
 		var start ref.Pos
 		startpos := false
-		switch rng.IntN(5) {
+		switch rng.IntN(6) {
+		case 5:
+			// start FEN with a RAW e.p. target (possibly not capturable), as many GUIs write it
+			if q, ok := gen.RawEP(rng); ok {
+				start = q
+				lc.C["histories_from_raw_ep_fen"]++
+			} else {
+				start = corpus[rng.IntN(len(corpus))]
+			}
 		case 0:
 			start, startpos = corpus[0], true
 		case 1:
